@@ -349,6 +349,74 @@ def gl6(prog):
     return out
 
 
+def hasher_feeds(te, h):
+    """h = finish(hasher): returns (starts from default?, [values fed in order])"""
+    h = strip(h)
+    if not mir.is_call(h, "finish"):
+        return None
+    x = strip(h[2][0])
+    fed = []
+    while isinstance(x, tuple) and x and x[0] == "mut":
+        site = x[1][0]
+        cs = te.calls_by_bb.get(site)
+        if cs is None or cs.callee.name != "hash":
+            return None
+        fed.append(strip(cs.args[0]))
+        x = strip(x[3])
+    if not mir.is_call(x, "default"):
+        return None
+    return list(reversed(fed))
+
+
+def gl7(prog):
+    """GL7  the semantic builders file a node under FxHash(value(semantic hash)) and look it up under FxHash of
+    exactly one value: the hash itself, then its negation — each with a fresh hasher."""
+    out = []
+    for self_adt in ("builder::decision_nnf::semantic::SemanticDecisionNNFBuilder", "builder::sdd::semantic::SemanticSddBuilder"):
+        fn = prog.find1(name="check_cached_hash_and_neg", self_adt=self_adt, unit="rsdd-lib")
+        te = fn.terms
+        keys = []
+        for cs in te.calls:
+            if cs.callee.name in ("get_by_hash", "get_shared_sdd_ptr"):
+                keys.append((cs, cs.args[-1]))
+        errs = []
+        if len(keys) != 2:
+            errs.append("expected two lookups (plain and negated hash), found %d" % len(keys))
+        for i, (cs, k) in enumerate(keys):
+            fed = hasher_feeds(te, k)
+            if fed is None:
+                errs.append("lookup %d: bucket key is not finish() of a hasher started from default()" % (i + 1))
+                continue
+            want_neg = i == 1
+            ok = len(fed) == 1 and mir.is_call(fed[0], "value") and (
+                (strip(fed[0][2][0]) == ("param", 2)) if not want_neg else
+                (mir.is_call(strip(fed[0][2][0]), "negate") and strip(strip(fed[0][2][0])[2][0]) == ("param", 2)))
+            if not ok:
+                errs.append("the %s lookup hashes %s; it must hash exactly value(%s) with a fresh hasher, otherwise the key "
+                            "never equals the key a node was filed under (complements are not recognised, equal functions get "
+                            "two nodes)" % ("negated" if want_neg else "plain", [show(f)[:40] for f in fed],
+                                            "negate(hash)" if want_neg else "hash"))
+        out.append(inst("GL", "%s::check_cached_hash_and_neg:GL7:lookup-keys" % self_adt, VIOLATION if errs else OK, fn, None,
+                        "; ".join(errs) if errs else "lookups use FxHash(value(h)) and FxHash(value(negate(h))), each from a fresh hasher"))
+    # interning side
+    for self_adt, names in (("builder::decision_nnf::semantic::SemanticDecisionNNFBuilder", ("get_or_insert",)),
+                            ("builder::sdd::semantic::SemanticSddBuilder", ("hash_bdd", "hash_sdd"))):
+        for nm in names:
+            fn = prog.find1(name=nm, self_adt=self_adt, unit="rsdd-lib")
+            te = fn.terms
+            if nm == "get_or_insert":
+                ks = [cs.args[1] for cs in te.calls if cs.callee.name == "get_or_insert_by_hash"]
+                k = ks[0] if ks else None
+            else:
+                k = te.ret
+            fed = hasher_feeds(te, k) if k is not None else None
+            ok = fed is not None and len(fed) == 1 and mir.is_call(fed[0], "value") and mir.is_call(strip(fed[0][2][0]), "semantic_hash")
+            out.append(inst("GL", "%s::%s:GL7:intern-key" % (self_adt, nm), OK if ok else VIOLATION, fn, None,
+                            "node filed under FxHash(value(semantic_hash(node)))" if ok else
+                            "interning key is %s, not FxHash(value(semantic_hash(node)))" % ([show(f)[:40] for f in fed] if fed else "unrecognised")))
+    return out
+
+
 def run(prog):
     a, getfn = gl1(prog)
-    return a + gl2(prog, getfn) + gl3(prog) + gl4(prog) + gl5(prog) + gl6(prog)
+    return a + gl2(prog, getfn) + gl3(prog) + gl4(prog) + gl5(prog) + gl6(prog) + gl7(prog)
